@@ -227,6 +227,12 @@ Create(ty, v) ==
     /\ UNCHANGED <<mq, step, evs, nsent, plan, handled, alive, dt>>
     /\ Log([op |-> "Create", ty |-> ty, v |-> v, q |-> Q1])
 
+CreateFail(ty) ==    \* create_agent whose initialize() raises: the id is used up, nothing else of the attempt remains
+    /\ "CreateFail" \in Ops /\ Spawn[ty] = <<>> /\ nextId + 1 <= MaxIds
+    /\ nextId' = nextId + 1
+    /\ UNCHANGED <<agents, tmap, mq, step, evs, nsent, plan, handled, alive, dt>>
+    /\ Log([op |-> "CreateFail", ty |-> ty, q |-> Q1])
+
 CreateW(ty, v, w) ==    \* an agent that also has the numeric property w
     /\ "PropW" \in Ops /\ nextId + 1 + Len(Spawn[ty]) <= MaxIds
     /\ agents' = agents \o MadeW(ty, v, w, nextId)
@@ -372,7 +378,7 @@ Init ==
     /\ mq = <<>> /\ step = 0 /\ evs = <<>> /\ nsent = 0 /\ plan = <<>> /\ handled = <<>>
     /\ alive = <<>> /\ hist = <<>> /\ dt = Dt100
 
-DoCreate    == \E ty \in Types, v \in Vals : Create(ty, v) \/ (\E w \in Vals : CreateW(ty, v, w))
+DoCreate    == \E ty \in Types : CreateFail(ty) \/ (\E v \in Vals : Create(ty, v) \/ (\E w \in Vals : CreateW(ty, v, w)))
 DoDelete    == \E ids \in (SUBSET (0..(nextId - 1))) : Cardinality(ids) \in {1, 2} /\ Delete(ids)
 DoConfigure == \E c \in Configs : Configure(c)
 DoSetState  == \E id \in 0..(nextId - 1), st \in States : SetState(id, st)
